@@ -26,9 +26,16 @@ ZipFileReader`, `ZipFileReader::finish_crypto` (the end-of-entry authentication 
   tie_zipfile_read_glue           (`entryGlue`) around (`layersRead`, `finishCrypto`) resp. (the translated
                                   `ZipFileReader::read`, the translated `finish_crypto`).
 
-What is not closed here: `layersRead` = the translated `ZipFileReader::read` on the embedded state (CRC layer ∘ decoder ∘
-AES layer through the `Rs.Read` instances); each of the three layers is tied on its own (`Tie/Layers`, `Tie/AesLayer`) and
-the model composes them; the composition through the class instances is left.
+  runDecG_eq, tie_layers_read,    the three translated layers COMPOSED through their `Read` instances: a decoder strategy
+  tie_entry_read                  (`Model.Aes.DecStep`, instantiating the named parameter `DecOps`) run against
+                                  `CryptoReader::Aes` through `impl Read for CryptoReader` is the model's `runDec`;
+                                  `Crc32Reader::read` on top is `layersRead`; hence `ZipFile::read` on a handle
+                                  reading a Deflated AES entry IS `Model.Aes.entryRead … true` - the function
+                                  `entry_eof_implies_mac` / `entryDrain` are stated about (same bytes / error / panic,
+                                  the handle's reader afterwards = the model's state), for every decoder strategy that
+                                  keeps the `Read` contract (`GoodDec`: at most `n` bytes back, `io::Error`s, pulls below
+                                  2^64), every source, every primitive triple.  (`Bzip2` / `Zstd`: the same proof with the
+                                  other constructor; `tie_layers_read` is stated for every decoder kind.)
 
 Trusted vocabulary (`Basic/RsE.lean`): the `Take` over the archive's reader is an arbitrary `Rs.Read`; the external
 decoders are `E.Dec` with ONE `read` call an arbitrary function (`DecOps`, a named parameter - `finish_crypto` is
@@ -176,8 +183,8 @@ theorem tie_copy_to_sink (P : AesPrims) (hW : P.WF) (S : Src σ) (hS : S.Contrac
 
 /-! ### the dispatch of `impl Read for CryptoReader` / `impl Read for ZipFileReader` -/
 
-section generic
-variable [Rs.AesPrims] [Rs.AesDyn] [Rs.E.DecOps] {T : Type} [Rs.Read T]
+section genericC
+variable [Rs.AesPrims] [Rs.AesDyn] {T : Type} [Rs.Read T]
 
 /-- put a layer's `read` result back under its constructor -/
 def under {A B : Type} (ctor : A → B) (x : Rs.IoRes UInt64 × A × Bytes) : Rs.IoRes UInt64 × B × Bytes :=
@@ -191,6 +198,11 @@ theorem crypto_read_zc (r : Gen.ZipCryptoReaderValid T) (buf : Bytes) :
     Gen.E.CryptoReader.read (.ZipCrypto r) buf = under .ZipCrypto (Gen.ZipCryptoReaderValid.read r buf) := rfl
 theorem crypto_read_aes (r : Gen.AesReaderValid T) (vv : Gen.AesVendorVersion) (buf : Bytes) :
     Gen.E.CryptoReader.read (.Aes r vv) buf = under (fun r => .Aes r vv) (Gen.AesReaderValid.read r buf) := rfl
+
+end genericC
+
+section generic
+variable [Rs.AesPrims] [Rs.AesDyn] [Rs.E.DecOps] {T : Type} [Rs.Read T]
 
 /-- `ZipFileReader::read`: `NoReader` panics; `Raw` reads the `Take`; every other variant calls
 `Crc32Reader::read` of the stack it holds. -/
@@ -472,5 +484,414 @@ theorem tie_zipfile_read_glue (mk) (fuel : Nat) (z : Gen.E.ZipFile T) (n : Nat) 
       rw [if_neg hc, if_neg hn0]
 
 end generic3
+
+/-! ### composing the layers: `ZipFileReader::read` on a `Deflated` / `Bzip2` stack over the AES layer is `layersRead` -/
+
+/-- a model outcome as what a `Read` caller sees -/
+def toRd : Out Bytes → Rs.RdRes
+  | .ok bs => .ok bs
+  | .err (.io k) => .err k
+  | .err _ => .panic
+  | .panic _ => .panic
+
+/-- one `read` call of a decoder strategy against ANY reader below it (through its `Read` instance) -/
+def runDecG {δ R : Type} [Rs.Read R] (d0 : δ) : DecStep δ → R → Rs.RdRes × δ × R
+  | .done r d, i => (toRd r, d, i)
+  | .pull k cont, i =>
+    match Rs.Read.rd i k with
+    | (.ok bs, i') => runDecG d0 (cont (.ok bs)) i'
+    | (.err e, i') => runDecG d0 (cont (.err (.io e))) i'
+    | (.panic, i') => (.panic, d0, i')
+
+/-- the model's arbitrary decoder strategy as the named parameter `DecOps` of the generated code -/
+@[instance_reducible] def decOpsOf {δ : Type} (D : Decoder δ) : Rs.E.DecOps :=
+  ⟨fun _ => δ, fun _ {_} _ st inner n => runDecG st (D.read st n) inner⟩
+
+/-- what the Tie asks of a decoder: it keeps the `Read` contract towards its caller (at most `n` bytes, fewer than
+2^64), reports failures as `io::Error`s, and asks the reader below for fewer than 2^64 bytes at a time -/
+inductive GoodStep {δ : Type} (n : Nat) : DecStep δ → Prop
+  | ok (bs : Bytes) (d : δ) (h1 : bs.length ≤ n) (h2 : bs.length < 2 ^ 64) : GoodStep n (.done (.ok bs) d)
+  | err (k : IoKind) (d : δ) : GoodStep n (.done (.err (.io k)) d)
+  | panic (m : String) (d : δ) : GoodStep n (.done (.panic m) d)
+  | pull (k : Nat) (cont : InnerRes → DecStep δ) (hk : k < 2 ^ 64) (h : ∀ r, GoodStep n (cont r)) :
+      GoodStep n (.pull k cont)
+
+def GoodDec {δ : Type} (D : Decoder δ) : Prop := ∀ d n, GoodStep n (D.read d n)
+
+theorem rd_crypto_aes (P : AesPrims) (S : Src σ) (g : @Gen.AesReaderValid (dynOf P) σ) (vv : Gen.AesVendorVersion) (k : Nat) :
+    @Rs.Read.rd _ (@Gen.E.read_CryptoReader (primsOf P) (dynOf P) σ (readOfA S)) (@Gen.E.CryptoReader.Aes (dynOf P) σ g vv) k =
+      ((@Rs.Read.rd _ (@Gen.E.read_AesReaderValid (primsOf P) (dynOf P) σ (readOfA S)) g k).1,
+        @Gen.E.CryptoReader.Aes (dynOf P) σ (@Rs.Read.rd _ (@Gen.E.read_AesReaderValid (primsOf P) (dynOf P) σ (readOfA S)) g k).2 vv) := by
+  show @Rs.Read.rd _ (Rs.E.asRead _) _ _ = (( @Rs.Read.rd _ (Rs.E.asRead _) _ _).1, _)
+  rw [rd_asRead, rd_asRead]
+  rw [@crypto_read_aes (primsOf P) (dynOf P) σ (readOfA S) g vv]
+  unfold under
+  rcases @Gen.AesReaderValid.read (primsOf P) (dynOf P) σ (readOfA S) g (List.replicate k 0) with ⟨o, g', b⟩
+  cases o <;> rfl
+
+/-- `Valid.read` fails with `io::Error`s only (read off `rd_toGen`) -/
+theorem read_err_io (P : AesPrims) (hW : P.WF) (S : Src σ) (hS : S.Contract) (hin : SmallA S) (v : Valid σ) (n : Nat)
+    (hn : n < 2 ^ 64) (hrem : v.dataRemaining < 2 ^ 64) (e : ZErr) (v' : Valid σ)
+    (h : Valid.read P S v n = (.err e, v')) : ∃ k, e = .io k := by
+  have hlen : (List.replicate n (0 : UInt8)).length = n := List.length_replicate
+  have key := tie_aes_read P hW S v (List.replicate n 0) (by rw [hlen]; exact hn) hrem hin
+    (fun bs s' h => Or.inl (by
+      have := hS _ _ _ _ h
+      rw [hlen] at this ⊢
+      exact Nat.le_trans this (Nat.min_le_right _ _)))
+  rw [hlen, h] at key
+  rcases hg : @Gen.AesReaderValid.read (primsOf P) (dynOf P) σ (readOfA S) (toGen P v) (List.replicate n 0) with ⟨g1, g2, g3⟩
+  rw [hg] at key
+  simp only [Prod.mk.injEq, eraseMsg] at key
+  cases g1 <;> simp [outRead] at key
+  exact ⟨_, key.1.symm⟩
+
+/-- **a decoder call against `CryptoReader::Aes` through the `Read` instances is the model's `runDec`** -/
+theorem runDecG_eq {δ : Type} (P : AesPrims) (hW : P.WF) (S : Src σ) (hS : S.Contract) (hin : SmallA S) (d0 : δ)
+    (vv : Gen.AesVendorVersion) (n : Nat) : ∀ (step : DecStep δ), GoodStep n step → ∀ (v : Valid σ), v.dataRemaining < 2 ^ 64 →
+    @runDecG δ _ (@Gen.E.read_CryptoReader (primsOf P) (dynOf P) σ (readOfA S)) d0 step
+        (@Gen.E.CryptoReader.Aes (dynOf P) σ (toGen P v) vv) =
+      (toRd (runDec P S d0 step v).1, (runDec P S d0 step v).2.1,
+        @Gen.E.CryptoReader.Aes (dynOf P) σ (toGen P (runDec P S d0 step v).2.2) vv) ∧
+      (runDec P S d0 step v).2.2.dataRemaining ≤ v.dataRemaining := by
+  intro step hg
+  induction hg with
+  | ok bs d h1 h2 => intro v _; exact ⟨rfl, Nat.le_refl _⟩
+  | err k d => intro v _; exact ⟨rfl, Nat.le_refl _⟩
+  | panic m d => intro v _; exact ⟨rfl, Nat.le_refl _⟩
+  | pull k cont hk h ih =>
+    intro v hrem
+    unfold runDecG runDec
+    rw [rd_crypto_aes, rd_toGen P hW S hS hin v k hk hrem]
+    have hle := read_rem_le P S v k
+    rcases hv : Valid.read P S v k with ⟨m1, m2⟩
+    rw [hv] at hle
+    have hrem2 : m2.dataRemaining < 2 ^ 64 := Nat.lt_of_le_of_lt hle hrem
+    cases m1 with
+    | ok bs =>
+      simp only [rdView]
+      have := ih (.ok bs) m2 hrem2
+      exact ⟨this.1, Nat.le_trans this.2 hle⟩
+    | err e =>
+      obtain ⟨k', rfl⟩ := read_err_io P hW S hS hin v k hk hrem e m2 hv
+      simp only [rdView]
+      have := ih (.err (.io k')) m2 hrem2
+      exact ⟨this.1, Nat.le_trans this.2 hle⟩
+    | panic m =>
+      simp only [rdView]
+      exact ⟨rfl, hle⟩
+
+
+/-! #### the CRC layer on top -/
+
+theorem runDecG_small {δ R : Type} [Rs.Read R] (d0 : δ) (n : Nat) : ∀ (step : DecStep δ), GoodStep n step → ∀ (i : R) bs d i',
+    runDecG d0 step i = (.ok bs, d, i') → bs.length ≤ n ∧ bs.length < 2 ^ 64 := by
+  intro step hg
+  induction hg with
+  | ok bs0 d0' h1 h2 =>
+    intro i bs d i' h
+    simp only [runDecG, toRd, Prod.mk.injEq, Rs.RdRes.ok.injEq] at h
+    obtain ⟨rfl, _, _⟩ := h
+    exact ⟨h1, h2⟩
+  | err k d0' => intro i bs d i' h; simp [runDecG, toRd] at h
+  | panic m d0' => intro i bs d i' h; simp [runDecG, toRd] at h
+  | pull k cont hk h ih =>
+    intro i bs d i' hr
+    unfold runDecG at hr
+    rcases hx : Rs.Read.rd i k with ⟨o, i2⟩
+    rw [hx] at hr
+    cases o with
+    | ok b2 => exact ih (.ok b2) i2 bs d i' hr
+    | err e => exact ih (.err (.io e)) i2 bs d i' hr
+    | panic => simp at hr
+
+/-- `RdRes` and the `ReadRes` of `Model/Layers.lean` are the same three cases -/
+def toRR : Rs.RdRes → Model.Layers.ReadRes
+  | .ok bs => .ok bs
+  | .err e => .err e
+  | .panic => .panic
+
+theorem rdOf_toRR (x : Rs.RdRes) : rdOf (toRR x) = x := by cases x <;> rfl
+
+/-- any member of `Rs.Read` as a source of `Model/Layers.lean` -/
+def srcOfRead (R : Type) [Rs.Read R] : Model.Layers.Src R := ⟨fun s k => (toRR (Rs.Read.rd s k).1, (Rs.Read.rd s k).2)⟩
+
+theorem readOf_srcOfRead (R : Type) [inst : Rs.Read R] : readOf (srcOfRead R) = inst := by
+  cases inst with
+  | mk rd =>
+    show Rs.Read.mk _ = Rs.Read.mk rd
+    congr
+    funext s k
+    show (rdOf (toRR (rd s k).1), (rd s k).2) = rd s k
+    rw [rdOf_toRR]
+
+theorem runDec_err_io {δ : Type} (P : AesPrims) (S : Src σ) (d0 : δ) (n : Nat) : ∀ (step : DecStep δ), GoodStep n step →
+    ∀ (v : Valid σ) e d v', runDec P S d0 step v = (.err e, d, v') → ∃ k, e = .io k := by
+  intro step hg
+  induction hg with
+  | ok bs d h1 h2 => intro v e d' v' h; simp [runDec] at h
+  | err k d => intro v e d' v' h; simp only [runDec, Prod.mk.injEq, Out.err.injEq] at h; exact ⟨k, h.1.symm⟩
+  | panic m d => intro v e d' v' h; simp [runDec] at h
+  | pull k cont hk h ih =>
+    intro v e d' v' hr
+    unfold runDec at hr
+    rcases hx : Valid.read P S v k with ⟨o, v2⟩
+    rw [hx] at hr
+    cases o with
+    | ok b2 => exact ih (.ok b2) v2 e d' v' hr
+    | err e2 => exact ih (.err e2) v2 e d' v' hr
+    | panic m => simp at hr
+
+/-- the decoder-over-decryption stack as a member of `Rs.Read`, with the model's strategy as the decoder -/
+abbrev stackRead {δ : Type} (P : AesPrims) (S : Src σ) (D : Decoder δ) (k : Rs.E.DecKind) :
+    Rs.Read (@Rs.E.Dec (decOpsOf D) k (@Gen.E.CryptoReader (dynOf P) σ)) :=
+  @Rs.E.readDec (decOpsOf D) k _ (@Gen.E.read_CryptoReader (primsOf P) (dynOf P) σ (readOfA S))
+
+def mkDec {δ : Type} (P : AesPrims) (D : Decoder δ) (k : Rs.E.DecKind) (d : δ) (i : @Gen.E.CryptoReader (dynOf P) σ) :
+    @Rs.E.Dec (decOpsOf D) k (@Gen.E.CryptoReader (dynOf P) σ) := @Rs.E.Dec.mk (decOpsOf D) k _ d i
+
+def stOf {δ : Type} (P : AesPrims) (D : Decoder δ) (k : Rs.E.DecKind)
+    (s : @Rs.E.Dec (decOpsOf D) k (@Gen.E.CryptoReader (dynOf P) σ)) : δ := @Rs.E.Dec.st (decOpsOf D) k _ s
+
+def innerOf {δ : Type} (P : AesPrims) (D : Decoder δ) (k : Rs.E.DecKind)
+    (s : @Rs.E.Dec (decOpsOf D) k (@Gen.E.CryptoReader (dynOf P) σ)) : @Gen.E.CryptoReader (dynOf P) σ :=
+  @Rs.E.Dec.inner (decOpsOf D) k _ s
+
+theorem rd_stack {δ : Type} (P : AesPrims) (S : Src σ) (D : Decoder δ) (k : Rs.E.DecKind)
+    (s : @Rs.E.Dec (decOpsOf D) k (@Gen.E.CryptoReader (dynOf P) σ)) (m : Nat) :
+    @Rs.Read.rd _ (stackRead P S D k) s m =
+      ((@runDecG δ _ (@Gen.E.read_CryptoReader (primsOf P) (dynOf P) σ (readOfA S)) (stOf P D k s) (D.read (stOf P D k s) m) (innerOf P D k s)).1,
+        mkDec P D k
+          (@runDecG δ _ (@Gen.E.read_CryptoReader (primsOf P) (dynOf P) σ (readOfA S)) (stOf P D k s) (D.read (stOf P D k s) m) (innerOf P D k s)).2.1
+          (@runDecG δ _ (@Gen.E.read_CryptoReader (primsOf P) (dynOf P) σ (readOfA S)) (stOf P D k s) (D.read (stOf P D k s) m) (innerOf P D k s)).2.2) := rfl
+
+/-- a model state of an AES entry read through a decompressor, as the generated `Crc32Reader` stack -/
+def embedStack {δ : Type} (P : AesPrims) (D : Decoder δ) (k : Rs.E.DecKind) (vv : Gen.AesVendorVersion)
+    (st : EntrySt σ δ Rs.Crc32Hasher) :
+    Gen.Crc32Reader (@Rs.E.Dec (decOpsOf D) k (@Gen.E.CryptoReader (dynOf P) σ)) :=
+  ⟨mkDec P D k st.dec (@Gen.E.CryptoReader.Aes (dynOf P) σ (toGen P st.aes) vv),
+    st.crc.hasher, st.crc.check, st.crc.ae2⟩
+
+/-- **`Crc32Reader::read` over a decompressor over `CryptoReader::Aes` - what `ZipFileReader::read` calls for a
+`Deflated` / `Bzip2` entry (`reader_read_deflated`) - is the model's `layersRead`**, for every decoder strategy that
+keeps the `Read` contract: the three translated layers composed through their `Read` instances. -/
+theorem tie_layers_read {δ : Type} (P : AesPrims) (hW : P.WF) (S : Src σ) (hS : S.Contract) (hin : SmallA S)
+    (D : Decoder δ) (hD : GoodDec D) (k : Rs.E.DecKind) (vv : Gen.AesVendorVersion)
+    (st : EntrySt σ δ Rs.Crc32Hasher) (n : Nat) (hn : n < 2 ^ 64) (hrem : st.aes.dataRemaining < 2 ^ 64) :
+    (fun g : Rs.IoRes UInt64 × _ × Bytes => (outRead g.1 g.2.2, g.2.1))
+        (@Gen.Crc32Reader.read _ (stackRead P S D k) (embedStack P D k vv st) (List.replicate n 0)) =
+      (eraseMsg (layersRead P S D Rs.Crc32Hasher.update Rs.Crc32Hasher.finalize st n).1,
+        embedStack P D k vv (layersRead P S D Rs.Crc32Hasher.update Rs.Crc32Hasher.finalize st n).2) := by
+  have hlen : (List.replicate n (0 : UInt8)).length = n := List.length_replicate
+  have hsmall : Small (@srcOfRead _ (stackRead P S D k)) := by
+    intro s m bs s' h
+    have h3 : (toRR (@Rs.Read.rd _ (stackRead P S D k) s m).1, (@Rs.Read.rd _ (stackRead P S D k) s m).2) =
+        (Model.Layers.ReadRes.ok bs, s') := h
+    rw [rd_stack] at h3
+    rcases hr : @runDecG δ _ (@Gen.E.read_CryptoReader (primsOf P) (dynOf P) σ (readOfA S)) (stOf P D k s)
+        (D.read (stOf P D k s) m) (innerOf P D k s) with ⟨r, st', i⟩
+    rw [hr] at h3
+    cases r with
+    | ok b2 =>
+      simp only [toRR, Prod.mk.injEq, Model.Layers.ReadRes.ok.injEq] at h3
+      obtain ⟨rfl, _⟩ := h3
+      exact (@runDecG_small δ _ (@Gen.E.read_CryptoReader (primsOf P) (dynOf P) σ (readOfA S)) _ m _ (hD _ m) _ _ _ _ hr).2
+    | err e => simp [toRR] at h3
+    | panic => simp [toRR] at h3
+  have key := tie_crc32reader_read (@srcOfRead _ (stackRead P S D k)) (embedStack P D k vv st) (List.replicate n 0)
+    (by rw [hlen]; exact hn) hsmall
+  rw [readOf_srcOfRead, hlen] at key
+  -- what the stack's `read` delivers at this state: the model's `runDec`
+  have hrd := runDecG_eq P hW S hS hin st.dec vv n (D.read st.dec n) (hD st.dec n) st.aes hrem
+  have hrd1 : @Rs.Read.rd _ (stackRead P S D k) (embedStack P D k vv st).inner n =
+      (toRd (runDec P S st.dec (D.read st.dec n) st.aes).1,
+        mkDec P D k (runDec P S st.dec (D.read st.dec n) st.aes).2.1
+          (@Gen.E.CryptoReader.Aes (dynOf P) σ (toGen P (runDec P S st.dec (D.read st.dec n) st.aes).2.2) vv)) := by
+    rw [rd_stack]
+    show (( @runDecG δ _ (@Gen.E.read_CryptoReader (primsOf P) (dynOf P) σ (readOfA S)) st.dec (D.read st.dec n) (@Gen.E.CryptoReader.Aes (dynOf P) σ (toGen P st.aes) vv)).1,
+      mkDec P D k ( @runDecG δ _ (@Gen.E.read_CryptoReader (primsOf P) (dynOf P) σ (readOfA S)) st.dec (D.read st.dec n) (@Gen.E.CryptoReader.Aes (dynOf P) σ (toGen P st.aes) vv)).2.1
+        ( @runDecG δ _ (@Gen.E.read_CryptoReader (primsOf P) (dynOf P) σ (readOfA S)) st.dec (D.read st.dec n) (@Gen.E.CryptoReader.Aes (dynOf P) σ (toGen P st.aes) vv)).2.2) = _
+    rw [hrd.1]
+  have hgood := hD st.dec n
+  have hview : ∀ g : Rs.IoRes UInt64 × Gen.Crc32Reader (@Rs.E.Dec (decOpsOf D) k (@Gen.E.CryptoReader (dynOf P) σ)) × Bytes,
+      (outRead g.1 g.2.2, g.2.1) = ((match (view g).1 with
+        | .ok bs => Out.ok bs
+        | .err e => .err (.io e)
+        | .panic => .panic ""), (view g).2) := by
+    rintro ⟨o, r, b⟩
+    cases o <;> rfl
+  show (outRead _ _, _) = _
+  rw [hview, key]
+  unfold crcLift Model.Layers.crcLayer layersRead crcRead
+  simp only [srcOfRead, hrd1]
+  by_cases h0 : n = 0
+  · subst h0
+    simp [eraseMsg, embedStack]
+  · simp only [h0, if_false]
+    have hsm : ∀ bs, (runDec P S st.dec (D.read st.dec n) st.aes).1 = .ok bs → bs.length ≤ n := by
+      intro bs hb
+      have h5 := hrd.1
+      rw [hb] at h5
+      exact (@runDecG_small δ _ (@Gen.E.read_CryptoReader (primsOf P) (dynOf P) σ (readOfA S)) st.dec n _ hgood _ _ _ _ h5).1
+    have hio := runDec_err_io P S st.dec n _ hgood st.aes
+    rcases hm : runDec P S st.dec (D.read st.dec n) st.aes with ⟨m1, d', v'⟩
+    rw [hm] at hsm
+    cases m1 with
+    | ok bs =>
+      have hl := hsm bs rfl
+      have hemp : bs.isEmpty = decide (bs.length = 0) := by cases bs <;> simp
+      have hsym : (st.crc.hasher.reg ^^^ 4294967295 = st.crc.check) = (st.crc.check = st.crc.hasher.reg ^^^ 4294967295) :=
+        propext eq_comm
+      by_cases hc : st.crc.check = st.crc.hasher.reg ^^^ 4294967295 <;>
+        cases hae : st.crc.ae2 <;>
+        by_cases hz : bs.length = 0 <;>
+        simp [toRd, toRR, embedStack, eraseMsg, hemp, hsym, hc, hae, hz, hl, Rs.Crc32Hasher.update, Rs.Crc32Hasher.finalize, Spec.Crc32.finalize]
+    | err e =>
+      obtain ⟨k', rfl⟩ := hio e d' v' hm
+      simp [toRd, toRR, embedStack, eraseMsg]
+    | panic m => simp [toRd, toRR, embedStack, eraseMsg]
+
+/-! #### all of it: `ZipFile::read` of a `Deflated` AES entry is `Model.Aes.entryRead` -/
+
+theorem lread_len {R : Type} [Rs.Read R] (r : R) (buf : Bytes) : (Rs.L.read r buf).2.2.length = buf.length := by
+  unfold Rs.L.read
+  rcases Rs.Read.rd r buf.length with ⟨o, r'⟩
+  cases o with
+  | ok bs => exact filled_length bs buf
+  | err e => rfl
+  | panic => rfl
+
+theorem crc_read_len {R : Type} [Rs.Read R] (self : Gen.Crc32Reader R) (buf : Bytes) :
+    (Gen.Crc32Reader.read self buf).2.2.length = buf.length := by
+  have hl := lread_len self.inner buf
+  unfold Gen.Crc32Reader.read
+  rcases hx : Rs.L.read self.inner buf with ⟨o, r', b⟩
+  rw [hx] at hl
+  have hl' : b.length = buf.length := hl
+  simp only [Id.run, Rs.L.id_pure, Rs.L.id_bind, hx, Gen.Crc32Reader.check_matches]
+  split
+  · rfl
+  · cases o with
+    | err e => exact hl'
+    | panic => exact hl'
+    | ok c =>
+      simp only [Rs.L.id_pure, Rs.L.id_bind, pure_bind]
+      split
+      · exact hl'
+      · split <;> exact hl'
+
+theorem layersRead_aes {δ H : Type} (P : AesPrims) (S : Src σ) (D : Decoder δ) (upd : H → Bytes → H) (fin : H → UInt32)
+    (st : EntrySt σ δ H) (n : Nat) :
+    (layersRead P S D upd fin st n).2.aes =
+      if n = 0 then st.aes else (runDec P S st.dec (D.read st.dec n) st.aes).2.2 := by
+  unfold layersRead crcRead
+  by_cases h0 : n = 0
+  · simp [h0]
+  · simp only [h0, if_false]
+    rcases runDec P S st.dec (D.read st.dec n) st.aes with ⟨o, d, v⟩
+    cases o with
+    | ok bs => simp only []; split <;> rfl
+    | err e => rfl
+    | panic m => rfl
+
+theorem copyToSink_err_io (P : AesPrims) (hW : P.WF) (S : Src σ) (hS : S.Contract) (hin : SmallA S) :
+    ∀ (f : Nat) (v : Valid σ), v.dataRemaining < 2 ^ 64 → ∀ e v', copyToSink P S f v = (.err e, v') → ∃ k, e = .io k := by
+  intro f
+  induction f with
+  | zero => intro v _ e v' h; simp [copyToSink] at h
+  | succ f ih =>
+    intro v hrem e v' h
+    unfold copyToSink at h
+    have hle := read_rem_le P S v 8192
+    rcases hv : Valid.read P S v 8192 with ⟨m1, m2⟩
+    rw [hv] at h hle
+    cases m1 with
+    | ok bs =>
+      simp only [] at h
+      split at h
+      · simp at h
+      · exact ih m2 (Nat.lt_of_le_of_lt hle hrem) e v' h
+    | err e2 =>
+      simp only [Prod.mk.injEq, Out.err.injEq] at h
+      obtain ⟨rfl, _⟩ := h
+      exact read_err_io P hW S hS hin v 8192 (by decide) hrem e2 m2 hv
+    | panic m => simp at h
+
+/-- the model state as the handle's reader: `ZipFileReader::Deflated(Crc32Reader<DeflateDecoder<CryptoReader::Aes>>)` -/
+def embedReader {δ : Type} (P : AesPrims) (D : Decoder δ) (vv : Gen.AesVendorVersion) (st : EntrySt σ δ Rs.Crc32Hasher) :
+    @Gen.E.ZipFileReader (dynOf P) (decOpsOf D) σ :=
+  @Gen.E.ZipFileReader.Deflated (dynOf P) (decOpsOf D) σ (embedStack P D .deflate vv st)
+
+/-- the handle's `reader` field (with the instances of this section) -/
+def readerOf {δ : Type} (P : AesPrims) (D : Decoder δ) (z : @Gen.E.ZipFile (dynOf P) (decOpsOf D) σ) :
+    @Gen.E.ZipFileReader (dynOf P) (decOpsOf D) σ := @Gen.E.ZipFile.reader (dynOf P) (decOpsOf D) σ z
+
+/-- **`ZipFile::read` on a handle reading a Deflated AES entry IS `Model.Aes.entryRead … true`** - the function
+`Props/C16.entry_eof_implies_mac` and `entryDrain` are stated about -, for every decoder strategy keeping the `Read`
+contract, every source, every primitive triple: same bytes / error / panic, and the handle's reader afterwards is the
+model's state.  (`fuel`: the rounds granted to `io::copy`; the model's choice.) -/
+theorem tie_entry_read {δ : Type} (P : AesPrims) (hW : P.WF) (S : Src σ) (hS : S.Contract) (hin : SmallA S)
+    (D : Decoder δ) (hD : GoodDec D) (vv : Gen.AesVendorVersion)
+    (mk : Gen.CompressionMethod → UInt32 → @Gen.E.CryptoReader (dynOf P) σ → Option (@Gen.E.ZipFileReader (dynOf P) (decOpsOf D) σ))
+    (z : @Gen.E.ZipFile (dynOf P) (decOpsOf D) σ) (st : EntrySt σ δ Rs.Crc32Hasher) (hz : readerOf P D z = embedReader P D vv st)
+    (n : Nat) (hn : n < 2 ^ 64) (hrem : st.aes.dataRemaining < 2 ^ 64) (fuel : Nat)
+    (hfuel : fuel = (layersRead P S D Rs.Crc32Hasher.update Rs.Crc32Hasher.finalize st n).2.aes.dataRemaining + 1) :
+    (fun g : Rs.IoRes UInt64 × @Gen.E.ZipFile (dynOf P) (decOpsOf D) σ × Bytes => (outRead g.1 g.2.2, readerOf P D g.2.1))
+        (@Gen.E.ZipFile.read (primsOf P) (dynOf P) (decOpsOf D) σ (readOfA S) mk fuel z (List.replicate n 0)) =
+      (eraseMsg (entryRead P S D true Rs.Crc32Hasher.update Rs.Crc32Hasher.finalize st n).1,
+        embedReader P D vv (entryRead P S D true Rs.Crc32Hasher.update Rs.Crc32Hasher.finalize st n).2) := by
+  have hlenr : (List.replicate n (0 : UInt8)).length = n := List.length_replicate
+  have hb : readerOf P D z ≠ @Gen.E.ZipFileReader.NoReader (dynOf P) (decOpsOf D) σ := by rw [hz]; intro h; cases h
+  have hlen : (@Gen.E.ZipFileReader.read (primsOf P) (dynOf P) (decOpsOf D) σ (readOfA S) (readerOf P D z) (List.replicate n 0)).2.2.length = n := by
+    rw [hz]
+    have h1 := @reader_read_deflated (primsOf P) (dynOf P) (decOpsOf D) σ (readOfA S) (embedStack P D .deflate vv st) (List.replicate n 0)
+    unfold embedReader
+    rw [h1]
+    unfold under
+    exact (@crc_read_len _ (stackRead P S D .deflate) _ _).trans hlenr
+  have hglue := @tie_zipfile_read_glue (primsOf P) (dynOf P) (decOpsOf D) σ (readOfA S) mk fuel z n hn hb hlen
+  show (fun g : Rs.IoRes UInt64 × @Gen.E.ZipFile (dynOf P) (decOpsOf D) σ × Bytes => (outRead g.1 g.2.2, @Gen.E.ZipFile.reader (dynOf P) (decOpsOf D) σ g.2.1)) _ = _
+  rw [hglue, entryRead_eq_glue]
+  show entryGlue _ _ (readerOf P D z) n = _
+  rw [hz]
+  have hL := tie_layers_read P hW S hS hin D hD .deflate vv st n hn hrem
+  have hrv : @readerView (primsOf P) (dynOf P) (decOpsOf D) σ (readOfA S) (embedReader P D vv st) n =
+      (eraseMsg (layersRead P S D Rs.Crc32Hasher.update Rs.Crc32Hasher.finalize st n).1,
+        embedReader P D vv (layersRead P S D Rs.Crc32Hasher.update Rs.Crc32Hasher.finalize st n).2) := by
+    unfold readerView embedReader
+    rw [@reader_read_deflated (primsOf P) (dynOf P) (decOpsOf D) σ (readOfA S) (embedStack P D .deflate vv st) (List.replicate n 0)]
+    unfold under
+    have h1 := congrArg Prod.fst hL
+    have h2 := congrArg Prod.snd hL
+    exact Prod.ext h1 (congrArg (@Gen.E.ZipFileReader.Deflated (dynOf P) (decOpsOf D) σ) h2)
+  unfold entryGlue
+  rw [hrv]
+  have hle : (layersRead P S D Rs.Crc32Hasher.update Rs.Crc32Hasher.finalize st n).2.aes.dataRemaining < 2 ^ 64 := by
+    rw [layersRead_aes]
+    split
+    · exact hrem
+    · exact Nat.lt_of_le_of_lt (runDecG_eq P hW S hS hin st.dec vv n (D.read st.dec n) (hD st.dec n) st.aes hrem).2 hrem
+  rcases hlr : layersRead P S D Rs.Crc32Hasher.update Rs.Crc32Hasher.finalize st n with ⟨o, st'⟩
+  rw [hlr] at hfuel hle
+  simp only [] at hfuel hle
+  cases o with
+  | err e => rfl
+  | panic m => rfl
+  | ok bs =>
+    simp only [eraseMsg]
+    by_cases hc : bs.length = 0 ∧ n ≠ 0
+    · rw [if_pos hc, if_pos hc]
+      have hfc := @tie_finish_crypto σ (decOpsOf D) P hW S hS hin (embedReader P D vv st') st'.aes vv rfl hle
+      unfold finishView
+      subst hfuel
+      rw [hfc]
+      rcases hfc2 : finishCrypto P S true st'.aes with ⟨o2, v2⟩
+      cases o2 with
+      | ok u => rfl
+      | err e =>
+        obtain ⟨k', rfl⟩ := copyToSink_err_io P hW S hS hin _ st'.aes hle e v2 hfc2
+        rfl
+      | panic m => rfl
+    · rw [if_neg hc, if_neg hc]
 
 end ZipVerif.Tie.EntryRead
